@@ -9,3 +9,5 @@ import Spade.Properties.C16
 #print axioms Spade.C16_disk_mono
 #print axioms Spade.C16_rect_metric_is_spec
 #print axioms Spade.C16_rect_metric_no_miss
+#print axioms Spade.C16_segMeetsRect_has_point
+#print axioms Spade.C16_rect_metric_exact
